@@ -132,7 +132,7 @@ class Ctx:
         out = []
 
         def f(n):
-            if n.get('k') == 'Call' and n.get('fn'):
+            if n.get('k') in ('Call', 'Zst') and isinstance(n.get('fn'), dict):        # direct calls and function items passed as values (`.map(autocov)`)
                 fn = n['fn']
                 tgt = fn['did'] if fn.get('local') and fn.get('container') != 'trait' else fn.get('resolved_did') if fn.get('resolved_local') else None
                 if tgt:
